@@ -246,8 +246,9 @@ impl TraceOnly {
 pub enum HeaderSpec {
     /// A header of some other service: its own trace id, span id and flags.
     Fresh { trace: u128, span: u64, flags: u8 },
-    /// All-zero ids.
-    Invalid { flags: u8 },
+    /// An INVALID header: all-zero ids, or partially zero (`trace`: non-zero trace id with an
+    /// all-zero parent id; `span`: zero trace id with a non-zero parent id; never both).
+    Invalid { flags: u8, trace: Option<u128>, span: Option<u64> },
     /// Same trace id as the traceparent that is current where it is pushed, another span id;
     /// flags as given or (None) those of the current one.
     SameTrace { span: u64, flags: Option<u8> },
@@ -368,7 +369,7 @@ impl Node {
                     + match header {
                         None => 0,
                         Some(HeaderSpec::Fresh { flags, .. }) => 1 + (flags & 1),
-                        Some(HeaderSpec::Invalid { flags }) => 3 + (flags & 1),
+                        Some(HeaderSpec::Invalid { flags, trace, span }) => 3 + (flags & 1) + 16 * (trace.is_some() as u8) + 32 * (span.is_some() as u8),
                         Some(HeaderSpec::SameTrace { .. }) => 5,
                     }
             }
@@ -427,13 +428,14 @@ impl Node {
                                     b'U'
                                 }
                             }
-                            (HeaderSpec::Invalid { flags }, _) => {
-                                if flags & 1 == 1 {
-                                    b'Z'
-                                } else {
-                                    b'z'
-                                }
-                            }
+                            (HeaderSpec::Invalid { flags, trace, span }, _) => match (trace.is_some(), span.is_some(), flags & 1 == 1) {
+                                (false, false, true) => b'Z',
+                                (false, false, false) => b'z',
+                                (true, _, true) => b'V',
+                                (true, _, false) => b'v',
+                                (_, _, true) => b'W',
+                                (_, _, false) => b'w',
+                            },
                             (HeaderSpec::SameTrace { .. }, _) => b'M',
                         },
                         Via::Remote => b'R',
@@ -525,6 +527,27 @@ fn decimal_looking_span(g: &mut Rng) -> u64 {
     p15 + g.below(9 * p15)
 }
 
+/// An invalid header: all-zero, or one of the partially-zero shapes.
+fn invalid_header(g: &mut Rng, flags: u8) -> HeaderSpec {
+    match g.below(3) {
+        0 => HeaderSpec::Invalid {
+            flags,
+            trace: None,
+            span: None,
+        },
+        1 => HeaderSpec::Invalid {
+            flags,
+            trace: Some(rand_trace(g)),
+            span: None,
+        },
+        _ => HeaderSpec::Invalid {
+            flags,
+            trace: None,
+            span: Some(rand_span(g)),
+        },
+    }
+}
+
 fn rand_flags(g: &mut Rng, sampled: bool) -> u8 {
     let extra = if g.chance(1, 6) { (g.below(127) as u8) << 1 } else { 0 };
     extra | sampled as u8
@@ -597,7 +620,7 @@ impl<'a> Gen<'a> {
                     let sampled = self.g.bool();
                     Via::Header {
                         spec: match self.g.below(3) {
-                            0 => HeaderSpec::Invalid { flags: sampled as u8 },
+                            0 => invalid_header(self.g, sampled as u8),
                             _ => HeaderSpec::Fresh {
                                 trace: rand_trace(self.g),
                                 span: rand_span(self.g),
@@ -668,8 +691,11 @@ impl<'a> Gen<'a> {
                     span: rand_span(g),
                     flags: rand_flags(g, false),
                 }),
-                5 => Some(HeaderSpec::Invalid { flags: 0 }),
-                6 => Some(HeaderSpec::Invalid { flags: 1 }),
+                5 => Some(invalid_header(g, 0)),
+                6 => {
+                    let f = rand_flags(g, true);
+                    Some(invalid_header(g, f))
+                }
                 _ => Some(HeaderSpec::SameTrace {
                     span: rand_span(g),
                     flags: if g.chance(1, 3) { Some(g.below(2) as u8) } else { None },
@@ -784,11 +810,12 @@ impl<'a> Gen<'a> {
                         span: rand_span(g),
                         flags: rand_flags(g, false),
                     },
-                    4 => HeaderSpec::Invalid { flags: 0 },
+                    4 => invalid_header(g, 0),
                     5 => {
                         let sampled = g.bool();
-                        HeaderSpec::Invalid {
-                            flags: rand_flags(g, sampled),
+                        {
+                            let f = rand_flags(g, sampled);
+                            invalid_header(g, f)
                         }
                     }
                     _ => HeaderSpec::SameTrace {
@@ -1773,9 +1800,9 @@ fn build_header(spec: &HeaderSpec) -> Tp {
             span: Some(*span),
             flags: *flags,
         },
-        HeaderSpec::Invalid { flags } => Tp {
-            trace: None,
-            span: None,
+        HeaderSpec::Invalid { flags, trace, span } => Tp {
+            trace: *trace,
+            span: *span,
             flags: *flags,
         },
         HeaderSpec::SameTrace { span, flags } => {
